@@ -39,6 +39,8 @@ pub fn key_of(st: &St) -> Key {
 }
 
 pub struct Base {
+  /// an independently keyed server that has already punctured every tag of the alphabet (import target)
+  pub foreign_punctured: pp::Server,
   pub initial: pp::Server,
   pub pk: pp::ServerPublicKey,
   pub points: Vec<pp::Point>,
@@ -51,7 +53,11 @@ pub fn setup(cx: &CaseCx) -> Base {
   let pk = initial.get_public_key();
   let points: Vec<pp::Point> = vec![pp::Client::blind(b"probe-0").0, pp::Client::blind(b"probe-1").0];
   let baseline = TAGS.iter().map(|&t| points.iter().map(|p| initial.eval(p, t, false).ok().map(|e| *e.output.as_bytes())).collect()).collect();
-  Base { initial, pk, points, baseline }
+  let mut foreign_punctured = pp::Server::new(vec![0, 1, 2, 3, 200]).expect("server");
+  for &t in TAGS.iter() {
+    let _ = foreign_punctured.puncture(t);
+  }
+  Base { foreign_punctured, initial, pk, points, baseline }
 }
 
 pub fn observable(s: &pp::Server, b: &Base) -> Vec<Vec<Option<[u8; 32]>>> {
@@ -125,6 +131,21 @@ pub fn check_touched(cx: &mut CaseCx, i: usize, inst: &Inst, b: &Base, path: &[A
   cx.eval();
   match export_bytes(&inst.s) {
     Ok(bytes) => {
+      // a second kind of importer: another key lineage that has punctured MORE than the exporter
+      let mut foreign = b.foreign_punctured.clone();
+      if import_into(&mut foreign, &bytes).is_ok() {
+        let restored = Inst { s: foreign, punct: inst.punct.clone() };
+        let before = cx.viols.len();
+        check_instance(cx, i, &restored, b, path);
+        if cx.viols.len() > before {
+          let v = cx.viols.last_mut().unwrap();
+          v.key = format!("C14/restored-instance-differs/foreign-importer/{}", v.key.trim_start_matches("C14/"));
+          v.what = format!("a server of another key that had punctured more tags, after importing the state exported by instance {}, is distinguishable from the exporter: {}", i, v.what);
+        }
+        if export_bytes(&restored.s).ok().as_ref() != Some(&bytes) {
+          cx.viol("C14/restored-instance-differs/foreign-importer/re-export", "a server of another key that imported the state re-exports a different key state", json!({"history": path_json(path), "instance": i}));
+        }
+      }
       let mut fresh = pp::Server::new(vec![9]).expect("server");
       match import_into(&mut fresh, &bytes) {
         Ok(()) => {
